@@ -111,13 +111,20 @@ def q_prepare(a, b, ctx, masked=False):
         ctx.violation("prepare-equivalent-changed", f"equivalent units {a!r}->{b!r} changed numbers")
 
 
-def q_link(a, b, ctx, publish_unit=None, masked=False):
-    """producer declares a, consumer declares b; optionally the payload is quantified in publish_unit"""
+def q_link(a, b, ctx, publish_unit=None, masked=False, flipped=False):
+    """producer declares a, consumer declares b; optionally the payload is quantified in publish_unit. flipped: both
+    ends on a grid, the consumer's with the axis direction reversed (the conversion then acts on a transformed
+    view of the stored data). The same stored item is pulled three times: every pull must be the exact conversion."""
     import finam as fm
     from finam.data import tools
 
-    cinfo = _grid_info(b, False) if not masked else fm.Info(time=hs.T0, grid=fm.UniformGrid((6,)), units=b)
-    link = hs.Link(_grid_info(a, masked), [cinfo])
+    if flipped:
+        pinfo = fm.Info(time=hs.T0, grid=fm.UniformGrid((6,)), units=a)
+        cinfo = fm.Info(time=hs.T0, grid=fm.UniformGrid((6,), axes_increase=[False]), units=b)
+    else:
+        pinfo = _grid_info(a, masked)
+        cinfo = _grid_info(b, False) if not masked else fm.Info(time=hs.T0, grid=fm.UniformGrid((6,)), units=b)
+    link = hs.Link(pinfo, [cinfo])
     try:
         link.connect()
     except fm.FinamMetaDataError:
@@ -144,22 +151,29 @@ def q_link(a, b, ctx, publish_unit=None, masked=False):
     if p is not None and not hu.compatible(p, a):
         ctx.violation("publish-accepts-incompatible", f"output declaring {a!r} accepted data in {p!r}")
         return
-    r = link.inputs[0].pull_data(hs.T0)
     src = p if p is not None else a
     # published numbers are in unit src; expected at the consumer: src -> a -> b
     in_a = X if (p is None or hu.equivalent(p, a)) else hu.convert(X, p, a)
     exp = in_a if hu.equivalent(a, b) else hu.convert(in_a, a, b)
-    if str(r.units) != str(tools.UNITS.Unit(b)):
-        ctx.violation("link-label", f"pulled units {r.units}, consumer declared {b!r}")
+    x0 = X
+    if flipped:
+        exp, x0 = exp[::-1], X[::-1]
     keep = ~MASK if masked else np.ones(len(X), bool)
-    got = np.ma.getdata(r.magnitude[0])
-    if not _close(got[keep], exp[keep]):
-        ctx.violation("link-values" + ("-masked-info" if masked else ""), f"{src!r} -> {a!r} -> {b!r}: got {got}, expected {exp}")
-    if p is None and hu.equivalent(a, b) and not np.array_equal(got[keep], X[keep]):
-        ctx.violation("link-equivalent-changed", f"equivalent units {a!r}->{b!r} changed numbers on the link")
+    for n_pull in (1, 2, 3):
+        r = link.inputs[0].pull_data(hs.T0)
+        if str(r.units) != str(tools.UNITS.Unit(b)):
+            ctx.violation("link-label", f"pulled units {r.units}, consumer declared {b!r}")
+        got = np.ma.getdata(r.magnitude[0])
+        suffix = ("-masked-info" if masked else "") + ("-flipped-grid" if flipped else "") + ("" if n_pull == 1 else "-repeated-pull")
+        if not _close(got[keep], exp[keep]):
+            ctx.violation("link-values" + suffix, f"{src!r} -> {a!r} -> {b!r} (pull {n_pull} of the same item): got {got}, expected {exp}")
+            return
+        if p is None and hu.equivalent(a, b) and not np.array_equal(got[keep], x0[keep]):
+            ctx.violation("link-equivalent-changed", f"equivalent units {a!r}->{b!r} changed numbers on the link")
+            return
 
 
-HELPERS = ["compat", "equiv", "to_units", "prepare", "link", "publish", "prepare_m", "publish_m", "link_m"]
+HELPERS = ["compat", "equiv", "to_units", "prepare", "link", "publish", "prepare_m", "publish_m", "link_m", "link_t"]
 
 
 def run_query(q, ctx):
@@ -183,6 +197,8 @@ def run_query(q, ctx):
         q_link(b, b, ctx, publish_unit=a, masked=True)
     elif h == "link_m":
         q_link(a, b, ctx, masked=True)
+    elif h == "link_t":
+        q_link(a, b, ctx, flipped=True)
 
 
 def check_pair(case, ctx):
